@@ -9,7 +9,11 @@ use std::sync::atomic::{AtomicBool, AtomicU64, Ordering};
 use std::sync::Mutex;
 use std::time::{Duration, Instant};
 
-pub const VERIF: &str = "/verif";
+/// root of the verification tree (evidence/, replays/, known_findings.jsonl); `./check` sets
+/// DV_ROOT to its own directory so that a snapshot run writes into the snapshot
+pub fn verif_root() -> String {
+    std::env::var("DV_ROOT").unwrap_or_else(|_| "/verif".to_string())
+}
 
 #[derive(Clone, Copy, PartialEq, Eq, Debug)]
 pub enum Tier {
@@ -727,8 +731,8 @@ impl Ctx {
             "wall_s": (wall*100.0).round()/100.0,
             "violations": violations
         });
-        let path = format!("{}/evidence/{}.json", VERIF, self.prop);
-        let _ = std::fs::create_dir_all(format!("{}/evidence", VERIF));
+        let path = format!("{}/evidence/{}.json", verif_root(), self.prop);
+        let _ = std::fs::create_dir_all(format!("{}/evidence", verif_root()));
         let tmp = format!("{}.tmp{}", path, std::process::id());
         std::fs::write(&tmp, serde_json::to_string_pretty(&ev).unwrap()).expect("write evidence");
         std::fs::rename(&tmp, &path).expect("rename evidence");
@@ -883,7 +887,7 @@ pub struct Known {
 
 pub fn load_known(prop: &str) -> Vec<Known> {
     let mut v = vec![];
-    if let Ok(f) = std::fs::File::open(format!("{}/known_findings.jsonl", VERIF)) {
+    if let Ok(f) = std::fs::File::open(format!("{}/known_findings.jsonl", verif_root())) {
         for line in std::io::BufReader::new(f).lines().map_while(Result::ok) {
             let line = line.trim();
             if line.is_empty() || line.starts_with('#') {
@@ -919,13 +923,13 @@ fn fnv(s: &str) -> u64 {
 }
 
 pub fn write_replay(prop: &str, tier: Tier, seed: u64, config: &str, f: &Finding) -> String {
-    let _ = std::fs::create_dir_all(format!("{}/replays", VERIF));
-    let path = format!("{}/replays/{}-{:012x}.json", VERIF, prop, fnv(&f.sig) & 0xffff_ffff_ffff);
+    let _ = std::fs::create_dir_all(format!("{}/replays", verif_root()));
+    let path = format!("{}/replays/{}-{:012x}.json", verif_root(), prop, fnv(&f.sig) & 0xffff_ffff_ffff);
     let j = json!({
         "property": prop, "signature": f.sig, "sweep": f.sweep, "index": f.index, "payload": f.payload,
         "tier": if tier == Tier::Quick {"quick"} else {"thorough"}, "seed": seed, "build_config": config,
         "case": f.case, "observed": f.observed, "expected": f.expected,
-        "how_to_replay": format!("/verif/check {} --replay {}", prop, path)
+        "how_to_replay": format!("./check {} --replay {}", prop, path)
     });
     let _ = std::fs::write(&path, serde_json::to_string_pretty(&j).unwrap());
     path
